@@ -83,7 +83,11 @@ def run(repo: Repo, rep: Report, tier: str) -> None:
     # replaced by a zero-field depth placeholder. The enter/exit typestate of C08 is therefore a necessary condition here.
     from rules import c08
 
-    c08.typestate(ps, rep, rule="R2.7")
+    from sa.flatten import flatten as _fl27
+
+    # bookkeeping helpers / context managers of the module that perform part of the enter/exit pair are written out inside the gate
+    _tracker_helpers = {f.name for f in ps.module.functions.values() if f is not ps and any(c08._callee_attr(c) in (c08.ENTER, c08.EXIT) for c in calls_in(f.node))}
+    c08.typestate(_fl27(ps, select=lambda h: h.name in _tracker_helpers), rep, rule="R2.7")
 
     # ---------------------------------------------------------------- R2.8 colliding property names keep distinct fields  [pattern of R20.2]
     from rules.c20 import _dedup_site
